@@ -1,7 +1,7 @@
 #!/bin/bash
 # Builds the verification tools from the sources in /verif, offline. Run once after a fresh restore.
 set -e
-cd /verif
+cd "$(dirname "$(readlink -f "$0")")"
 export GOFLAGS=-mod=mod GOPROXY=off GOSUMDB=off GOTOOLCHAIN=local
 mkdir -p bin evidence replays
 go1.26.8 build -o bin/vinstr ./cmd/vinstr
